@@ -80,6 +80,7 @@ FrameItems ==
     \* (what follows a bad header is a well-formed request: a server that read on would answer it)
     Item("oversize", EncLen(MaxMsg + 1), Frame(ReqList), 0),
     Item("huge", <<255, 255, 255, 255>>, Frame(ReqList), 0),
+    Item("oversize-complete", EncLen(MaxMsg + 1), <<99>>, MaxMsg),           \* every declared octet is there
     Item("exactmax", EncLen(MaxMsg), <<99>>, MaxMsg - 1),
     Item("cut-frame", EncLen(10), <<MsgRequestIdentities, 0, 0>>, 0),
     Item("cut-header", <<0, 0>>, <<>>, 0) }
